@@ -145,6 +145,11 @@ class CInterp:
                     else:
                         args.append(self.ev(a, env))
                 return self.run(h, args)
+            if name == 'Py_CLEAR' and len(e.a[1]) == 1 and e.a[1][0] is not None and \
+                    e.a[1][0].k == 'var' and e.a[1][0].a[0] in env:
+                # releases the reference and leaves the local NULL
+                env[e.a[1][0].a[0]] = None
+                return None
             args = [self.ev(a, env) if a is not None and a.k != 'addr' else a
                     for a in e.a[1]]
             self.trace.append(name if isinstance(name, str) else show(name))
